@@ -13,9 +13,15 @@ import PnVerif.Gen.IoSites
   new `onlyIfEFILE` site, a deleted `status = err`, an `err` that a later call overwrites ... changes a
   table row and either the partial theorem or the exception list stops checking.
 
-  The full statement is FALSE of the current code (known defects, each replayed on the real library
-  by the fault-injection harness); it is kept as `NoSilentDrop_Statement`, refuted by
-  `no_silent_drop_counterexample`, and proved for everything outside the explicit `exceptions`.
+  The full statement `NoSilentDrop_Statement` is FALSE of a tree that still has dropping rows (the
+  known defects, each replayed on the real library by the fault-injection harness) and TRUE of a tree
+  that has none.  This file is valid for BOTH: `exceptions` is COMPUTED from the regenerated table
+  (the rows whose pattern does not keep a failure), the theorems are about the exceptions PRESENT:
+    no_silent_drop_partial          nothing outside the present exceptions drops (every class, every code)
+    exceptions_are_real             every present exception is a real drop of the table
+    no_silent_drop_iff_no_exceptions   Statement ↔ exceptions = []
+  Which of the present exceptions are TOLERATED is not decided here: checks/c11.py compares them with
+  the `finding:` lines of KNOWN_FINDINGS.txt (an exception without a finding is reported).
 
   Rows are referred to by the generated constants `Key.<row id>` (numeric keys; the strings of the
   tables are labels only, the kernel never compares them): a row that disappears from the source
@@ -99,30 +105,22 @@ inductive ClassFilter where
 structure Exception where
   row : Nat               -- key of the site or chain row that drops the failure
   filter : ClassFilter
-  finding : String
-  deriving Repr
+  deriving Repr, DecidableEq
 
-/-- Rows of the current tree that drop a failure.  Hand-written: a NEW dropping row is not in this list
-    and makes `no_silent_drop_partial` fail.  A row that stops dropping (after a fix) makes
-    `exceptions_are_real` fail: delete its line here (see findings/C11.txt). -/
-def exceptions : List Exception := [
-  -- F6: only NC_EFILE is turned into an error
-  ⟨Key.write_NC_1, .nonEFILE, "F6"⟩, ⟨Key.write_NC_2, .nonEFILE, "F6"⟩,
-  ⟨Key.move_file_block_1, .nonEFILE, "F6"⟩, ⟨Key.move_file_block_2, .nonEFILE, "F6"⟩, ⟨Key.move_file_block_3, .nonEFILE, "F6"⟩,
-  ⟨Key.ncmpio_write_numrecs_2, .nonEFILE, "F6"⟩, ⟨Key.ncmpio_write_numrecs_3, .nonEFILE, "F6"⟩,
-  -- F3: req_commit keeps one `err` for the write phase and the read phase
-  ⟨Key.req_commit__wait_getput_1, .anyClass, "F3"⟩, ⟨Key.req_commit__ncmpio_intra_node_aggregation_nreqs_1, .anyClass, "F3"⟩,
-  -- F19 (finding C11.N1): fillerup_aggregate tests mpireturn only after the following MPI_File_set_view overwrote it
-  ⟨Key.fillerup_aggregate_1, .anyClass, "F19"⟩, ⟨Key.fillerup_aggregate_2, .anyClass, "F19"⟩,
-  -- F20 (finding C11.N2): ncmpio_redef discards the status of ncmpio_end_indep_data (numrecs write when leaving independent mode)
-  ⟨Key.ncmpio_redef__ncmpio_end_indep_data_1, .anyClass, "F20"⟩,
-  -- F21 (status discarded, but NOT a property violation at run time: the parser then fails with a format error,
-  --      see findings/C11.txt): hdr_get_NC_var: `if (err != NC_NOERR) break;` in the dimid loop, then `err` is assigned again
-  ⟨Key.hdr_get_NC_var__hdr_get_uint32_2, .anyClass, "F21"⟩, ⟨Key.hdr_get_NC_var__hdr_get_uint64_2, .anyClass, "F21"⟩,
-  -- F22 (finding C11.N4): zero-length participation in the root's collective header / numrecs I/O: mpireturn never tested
-  ⟨Key.write_NC_3, .anyClass, "F22"⟩, ⟨Key.ncmpio_write_header_3, .anyClass, "F22"⟩,
-  ⟨Key.ncmpio_write_numrecs_1, .anyClass, "F22"⟩, ⟨Key.hdr_fetch_3, .anyClass, "F22"⟩
-]
+/-- a row is an exception iff its pattern does not keep every non-zero code -/
+def rowException (key : Nat) (p : Pattern) (c : Int) : Option Exception :=
+  if p.keeps c then none
+  else if p == .onlyIfEFILE && c != 0 then some ⟨key, .nonEFILE⟩
+  else some ⟨key, .anyClass⟩
+
+/-- The exceptions PRESENT in the regenerated table.  Unfixed tree: the F6 sites (write_NC.1/.2,
+    move_file_block.1-3, ncmpio_write_numrecs.2/.3: nonEFILE), F3 (req_commit>wait_getput.1 and the
+    intra-node variant), fillerup_aggregate.1/.2, ncmpio_redef>ncmpio_end_indep_data.1, the dimid loop
+    of hdr_get_NC_var (uint32.2/uint64.2) and the four zero-length participation sites.  A repaired
+    row simply is no longer in the list. -/
+def exceptions : List Exception :=
+  sites.filterMap (fun s => rowException s.key s.pattern s.code) ++
+  chains.filterMap (fun ch => rowException ch.key ch.pattern ch.code)
 
 def Exception.coversB (e : Exception) (s : Site) (p : Path) (isEfile : Bool) : Bool :=
   (e.row == s.key || p.chainKeys.contains e.row) &&
@@ -215,86 +213,127 @@ theorem no_silent_drop_partial :
   intro s hs p hp c hc hex
   exact no_silent_drop_partial_all_codes s hs p hp (ncOf c.2) (errmap_total c hc) hex
 
-/-- THE SWITCH: as soon as the exception list is empty (every known defect repaired and its row
-    removed), the partial theorem IS the full statement.  After the repairs:
-    `theorem no_silent_drop : NoSilentDrop_Statement := no_silent_drop_of_no_exceptions rfl` -/
+/-- a tree without dropping rows satisfies the property as written -/
 theorem no_silent_drop_of_no_exceptions (h : exceptions = []) : NoSilentDrop_Statement := by
   intro s hs p hp c hc r hr
   have hex : excepted s p (ncOf c.2) = false := by simp [excepted, exceptedB, h]
   exact no_silent_drop_partial s hs p hp c hc hex r hr
 
-/-- two representative codes: the generic one (NC_EFILE) and a specific one -/
-def witnessCodes : List Int := [NC_EFILE, ncOf Cls.MPI_ERR_NO_SPACE]
+/-- two representative classes: the generic one (-> NC_EFILE) and a specific one -/
+def witnessClasses : List Nat := [Cls.MPI_ERR_IO, Cls.MPI_ERR_NO_SPACE]
 
-/-- the exception list is not stale and not over-broad: every listed row really drops a failure of a
-    class its filter admits, on some path no OTHER exception covers, in the CURRENT table -/
+theorem witnessClasses_are_classes : ∀ c ∈ witnessClasses, ∃ x ∈ mpiClasses, x.2 = c := by decide +kernel
+
+/-- every PRESENT exception really drops a failure of a class its filter admits, on some path no other
+    exception covers, in the current table -/
 def Exception.real (e : Exception) : Bool :=
-  sites.any (fun s => (pathsOf s).any (fun p => witnessCodes.any (fun m =>
-    e.coversB s p (m == NC_EFILE) &&
-    (exceptions.all (fun e' => e'.row == e.row || !e'.coversB s p (m == NC_EFILE))) &&
-    (apiOutcomes chains s p m).contains 0)))
+  sites.any (fun s => (pathsOf s).any (fun p => witnessClasses.any (fun c =>
+    (e.coversB s p (ncOf c == NC_EFILE) &&
+     (exceptions.all (fun e' => e'.row == e.row || !e'.coversB s p (ncOf c == NC_EFILE)))) &&
+    (apiOutcomes chains s p (ncOf c)).contains 0)))
 
 theorem exceptions_are_real : ∀ e ∈ exceptions, e.real = true := by decide +kernel
 
+/-- one present exception refutes the full statement -/
+theorem statement_false_of_exception (e : Exception) (he : e ∈ exceptions) : ¬ NoSilentDrop_Statement := by
+  intro h
+  have hr := exceptions_are_real e he
+  unfold Exception.real at hr
+  simp only [List.any_eq_true, Bool.and_eq_true] at hr
+  obtain ⟨s, hs, p, hp, c, hc, _, h0⟩ := hr
+  obtain ⟨x, hx, hxc⟩ := witnessClasses_are_classes c hc
+  have h0' : (0 : Int) ∈ apiStatus s p x.2 := by
+    rw [hxc]
+    unfold apiStatus
+    simpa using h0
+  exact h s hs p hp x hx 0 h0' rfl
+
+/-- BOTH VARIANTS: the property as written holds exactly when the regenerated table has no dropping row -/
+theorem no_silent_drop_iff_no_exceptions : NoSilentDrop_Statement ↔ exceptions = [] := by
+  constructor
+  · intro h
+    cases hE : exceptions with
+    | nil => rfl
+    | cons e es =>
+      exact absurd h (statement_false_of_exception e (by rw [hE]; exact List.mem_cons_self))
+  · exact no_silent_drop_of_no_exceptions
+
 /-- the hypothesis of the partial theorem is satisfiable (most of the table is outside the exceptions) -/
 theorem partial_nonvacuous :
-    (sites.flatMap (fun s => (pathsOf s).flatMap (fun p => witnessCodes.filter (fun m => !excepted s p m)))).length ≥ 100 := by
+    (sites.flatMap (fun s => (pathsOf s).flatMap (fun p => witnessClasses.filter (fun c => !excepted s p (ncOf c))))).length ≥ 100 := by
   decide +kernel
 
-/-! ## counterexamples to the full statement (the witnesses the harness replays) -/
+/-! ## named witnesses (the cases the harness replays), valid for the unrepaired AND the repaired row:
+    "if the row still has the defective pattern, this is the drop; the generic class is reported either way" -/
 
-/-- F6: ncmpi_enddef, header write fails with MPI_ERR_NO_SPACE → NC_NOERR -/
+/-- F6: ncmpi_enddef, header write fails with MPI_ERR_NO_SPACE: NC_NOERR while write_NC is onlyIfEFILE -/
 theorem F6_enddef_header_write_no_space :
-    ∃ s ∈ sites, ∃ p ∈ pathsOf s, s.key = Key.write_NC_2 ∧ p.api = Fn.ncmpio_enddef ∧
-      ("MPI_ERR_NO_SPACE", Cls.MPI_ERR_NO_SPACE) ∈ mpiClasses ∧ 0 ∈ apiStatus s p Cls.MPI_ERR_NO_SPACE := by
+    ∀ s ∈ sites, s.key = Key.write_NC_2 → s.pattern = .onlyIfEFILE →
+      ∃ p ∈ pathsOf s, p.api = Fn.ncmpio_enddef ∧ 0 ∈ apiStatus s p Cls.MPI_ERR_NO_SPACE := by
   decide +kernel
 
-/-- F6: the same site DOES report the generic class (MPI_ERR_IO → NC_EFILE → NC_EWRITE) -/
+/-- ... and NC_ENO_SPACE once it keeps the code (repaired tree) -/
+theorem F6_enddef_header_write_no_space_repaired :
+    ∀ s ∈ sites, s.key = Key.write_NC_2 → s.pattern.keeps s.code = true →
+      ∀ p ∈ pathsOf s, p.api = Fn.ncmpio_enddef → apiStatus s p Cls.MPI_ERR_NO_SPACE = [ncOf Cls.MPI_ERR_NO_SPACE] := by
+  decide +kernel
+
+/-- F6: the same site reports the generic class (MPI_ERR_IO → NC_EFILE → NC_EWRITE) in both variants -/
 theorem F6_enddef_header_write_generic_ok :
     ∀ s ∈ sites, s.key = Key.write_NC_2 → ∀ p ∈ pathsOf s, apiStatus s p Cls.MPI_ERR_IO = [NC_EWRITE] := by
   decide +kernel
 
-/-- F3: a collective write of a wait_all fails (any class), the same wait_all also has a read phase → NC_NOERR possible -/
+/-- F3: while req_commit's write-phase row is `overwritable`, a failed collective write of a wait_all that
+    also has a read phase can come out as NC_NOERR, whatever the class -/
 theorem F3_wait_write_then_read :
-    ∃ s ∈ sites, ∃ p ∈ pathsOf s, s.key = Key.ncmpio_read_write_3 ∧ p.api = Fn.ncmpio_wait ∧
-      ∀ c ∈ mpiClasses, 0 ∈ apiStatus s p c.2 := by decide +kernel
+    ∀ ch ∈ chains, ch.key = Key.req_commit__wait_getput_1 → ch.pattern = .overwritable →
+      ∃ s ∈ sites, ∃ p ∈ pathsOf s, s.key = Key.ncmpio_read_write_3 ∧ p.api = Fn.ncmpio_wait ∧
+        ∀ c ∈ mpiClasses, 0 ∈ apiStatus s p c.2 := by decide +kernel
 
-/-- F19: the aggregated fill write of ncmpi_enddef fails, even with the generic class → NC_NOERR -/
+/-- F19 / C11.N1: while fillerup_aggregate's write is `ignored`, the fill write of ncmpi_enddef is dropped for every class -/
 theorem F19_fill_write_ignored :
-    ∃ s ∈ sites, ∃ p ∈ pathsOf s, s.key = Key.fillerup_aggregate_2 ∧ p.api = Fn.ncmpio_enddef ∧
-      ∀ c ∈ mpiClasses, apiStatus s p c.2 = [0] := by decide +kernel
+    ∀ s ∈ sites, s.key = Key.fillerup_aggregate_2 → s.pattern = .ignored →
+      ∃ p ∈ pathsOf s, p.api = Fn.ncmpio_enddef ∧ ∀ c ∈ mpiClasses, apiStatus s p c.2 = [0] := by decide +kernel
 
-theorem no_silent_drop_counterexample : ¬ NoSilentDrop_Statement := by
-  intro h
-  obtain ⟨s, hs, p, hp, _, _, hc, h0⟩ := F6_enddef_header_write_no_space
-  exact h s hs p hp _ hc 0 h0 rfl
+/-! ## req_commit: the hand transcriptions (unrepaired and repaired) and the generated rows agree -/
 
-/-! ## req_commit: the hand transcription and the generated row agree -/
-
-/-- what `req_commit` returns for a failed write phase (code w) is exactly the generated row's
-    outcome set: `w` when there is no read phase, 0 (overwritten by the successful read) when there is -/
+/-- UNREPAIRED variant (row pattern `overwritable`): what `req_commit` returns for a failed write phase
+    (code w) is exactly the row's outcome set: `w` when there is no read phase, 0 (overwritten by the
+    successful read) when there is -/
 theorem commitStatus_matches_table :
-    ∀ ch ∈ chains, ch.key = Key.req_commit__wait_getput_1 →
+    ∀ ch ∈ chains, ch.key = Key.req_commit__wait_getput_1 → ch.pattern = .overwritable →
       ∀ w : Int, ch.out.eval w = [commitStatus true false w 0, commitStatus true true w 0] := by
-  intro ch hch hid w
-  rw [chain_pattern_sound ch hch w]
-  have hp : ∀ ch ∈ chains, ch.key = Key.req_commit__wait_getput_1 → ch.pattern = .overwritable := by decide +kernel
-  rw [hp ch hch hid]
+  intro ch hch _ hp w
+  rw [chain_pattern_sound ch hch w, hp]
   simp [patternEval, commitStatus]
 
-/-- the read phase itself is reported (nothing follows it) -/
+/-- REPAIRED variant (row pattern `propagate`): with or without a read phase the write failure is returned -/
+theorem commitStatusFixed_matches_table :
+    ∀ ch ∈ chains, ch.key = Key.req_commit__wait_getput_1 → ch.pattern = .propagate →
+      ∀ (w : Int) (dr : Bool), w ≠ 0 → ch.out.eval w = [commitStatusFixed true dr w 0] := by
+  intro ch hch _ hp w dr hw
+  rw [chain_pattern_sound ch hch w, hp]
+  cases dr <;> simp [patternEval, commitStatusFixed, hw]
+
+/-- the tree is one of the two variants -/
+theorem commit_row_is_one_of_the_variants :
+    ∀ ch ∈ chains, ch.key = Key.req_commit__wait_getput_1 → ch.pattern = .overwritable ∨ ch.pattern = .propagate := by
+  decide +kernel
+
+/-- the read phase itself is reported in both variants (nothing follows it) -/
 theorem commit_read_phase_propagates :
-    ∀ ch ∈ chains, ch.key = Key.req_commit__wait_getput_2 → ∀ r : Int, ch.out.eval r = [commitStatus true true 0 r] := by
+    ∀ ch ∈ chains, ch.key = Key.req_commit__wait_getput_2 →
+      ∀ r : Int, ch.out.eval r = [commitStatus true true 0 r] ∧ (r ≠ 0 → ch.out.eval r = [commitStatusFixed false true 0 r]) := by
   intro ch hch hid r
   rw [chain_pattern_sound ch hch r]
   have hp : ∀ ch ∈ chains, ch.key = Key.req_commit__wait_getput_2 → ch.pattern = .propagate := by decide +kernel
   rw [hp ch hch hid]
-  simp [patternEval, commitStatus]
+  simp [patternEval, commitStatus, commitStatusFixed]
 
-/-- a repaired req_commit (`first error wins` across the two phases) would not drop -/
-theorem commit_fixed_no_drop (w r : Int) (dr : Bool) (hw : w ≠ 0) :
-    firstErr (commitStatus true false w 0) (commitStatus false dr 0 r) ≠ 0 := by
-  simp [firstErr, commitStatus, hw]
+/-- the repaired req_commit never drops -/
+theorem commit_fixed_no_drop (w r : Int) (dw dr : Bool) (h : (dw = true ∧ w ≠ 0) ∨ (dw = false ∧ dr = true ∧ r ≠ 0)) :
+    commitStatusFixed dw dr w r ≠ 0 := by
+  rcases h with ⟨h1, h2⟩ | ⟨h1, h2, h3⟩ <;> simp [commitStatusFixed, *]
 
 /-! ## non-vacuity examples -/
 
@@ -314,10 +353,11 @@ def obligations : List String := [
   "paths_wellformed", "every_site_has_a_path", "keys_distinct",
   "unexcepted_cases_are_clean", "keeps_nonzero", "siteOK_nonzero", "runChains_nonzero", "clean_path_never_drops",
   "no_silent_drop_partial_all_codes", "no_silent_drop_partial", "no_silent_drop_of_no_exceptions",
-  "exceptions_are_real", "partial_nonvacuous",
-  "F6_enddef_header_write_no_space", "F6_enddef_header_write_generic_ok", "F3_wait_write_then_read",
-  "F19_fill_write_ignored",
-  "no_silent_drop_counterexample", "commitStatus_matches_table", "commit_read_phase_propagates",
-  "commit_fixed_no_drop"
+  "witnessClasses_are_classes", "exceptions_are_real", "statement_false_of_exception",
+  "no_silent_drop_iff_no_exceptions", "partial_nonvacuous",
+  "F6_enddef_header_write_no_space", "F6_enddef_header_write_no_space_repaired", "F6_enddef_header_write_generic_ok",
+  "F3_wait_write_then_read", "F19_fill_write_ignored",
+  "commitStatus_matches_table", "commitStatusFixed_matches_table", "commit_row_is_one_of_the_variants",
+  "commit_read_phase_propagates", "commit_fixed_no_drop"
 ]
 end PnVerif.Props.C11
